@@ -13,8 +13,8 @@
 #include "vf.h"
 #include "galois/PriorityQueue.h"
 #include "vf_standalone.h"
-#include "../../repo/libgalois/src/SimpleLock.cpp"
-#include "../../repo/libgalois/src/PtrLock.cpp"
+#include "../src/SimpleLock.cpp"
+#include "../src/PtrLock.cpp"
 
 #ifdef GALOIS_FORCE_STANDALONE
 galois::runtime::Pow_2_BlockHeap::Pow_2_BlockHeap(void) noexcept : heapTable() { populateTable(); }
